@@ -73,6 +73,8 @@ SIGS = {
     's1': (utype.parse(s1), s1, ['a', 'b'], 2, {'a': 'a', 'b': 'b', 'c': 'c', 'd': 'd'}, False, []),
     's2': (utype.parse(s2), s2, ['a', 'b'], 2, {'b': 'b', 'c': 'c'}, False, ['a']),
     's3': (utype.parse(s3), s3, ['a'], None, {'a': 'a', 'k': 'k'}, True, []),
+    's3c': (utype.parse(options=utype.Options(collect_errors=True))(s3), s3, ['a'], None, {'a': 'a', 'k': 'k'}, True, []),
+    's1c': (utype.parse(options=utype.Options(collect_errors=True))(s1), s1, ['a', 'b'], 2, {'a': 'a', 'b': 'b', 'c': 'c', 'd': 'd'}, False, []),
     's4': (utype.parse(s4), s4, ['a', '_skip', 'b'], 3, {'a': 'a', 'b': 'b'}, False, []),
     's5': (utype.parse(s5_dec), s5_twin, ['a', 'b'], 2, {'a': 'a', 'a2': 'a', 'a3': 'a', 'b': 'b', 'bb': 'b'}, False, []),
     's6': (utype.parse(s6), s6, ['a', 'b', 'c'], None, {'c': 'c', 'd': 'd'}, False, ['a', 'b']),
@@ -484,3 +486,40 @@ def async_generator(V):
     V.check(seen == [s for i, s in enumerate(tsends) if s is not None and i < len(twin) - 1][:len(seen)] and len(seen) == n_delivered,
             'async-generator:sent-values', det)
     V.cover('return' if got and got[-1][0] == 'return' else 'open')
+
+
+# ---------------------------------------------------------------- return values incl. None
+def _mk_ret(ann):
+    @utype.parse
+    def r(v) -> ann:
+        return v
+    return r
+
+
+RET = {'int': (int, _mk_ret(int)), 'List[int]': (List[int], _mk_ret(List[int])), 'str': (str, _mk_ret(str)),
+       'dict': (dict, _mk_ret(dict)), 'Optional[int]': (__import__('typing').Optional[int], _mk_ret(__import__('typing').Optional[int]))}
+
+
+@ob('return-conversion', marks=['accept', 'reject'], budget=(40, 150),
+    bounds='@parse def r(v) -> T returning its argument, T in {int, List[int], str, dict, Optional[int]}; v = None | solver int | "5" | '
+           '"x" | [1, "2"] | {}: the caller gets exactly what converting v to T gives (None is converted like any other value), '
+           'or a ParseError when that conversion fails')
+def return_conversion(V):
+    name = V.pick('T', sorted(RET))
+    T, fn = RET[name]
+    k = V.pick('vk', ['none', 'int', 'other'])
+    v = None if k == 'none' else V.int('v', -3, 3) if k == 'int' else V.pick('vo', ['5', 'x', [1, '2'], {}, 2.5])
+    from utype.utils.transform import type_transform
+    try:
+        want = ('ok', type_transform(v, utype.Rule.parse_annotation(T)))
+    except Exception:  # noqa
+        want = ('err',)
+    try:
+        got = ('ok', fn(v))
+    except exc.ParseError:
+        got = ('err',)
+    except Exception as e:  # noqa
+        got = ('crash', type(e).__name__)
+    V.check(got[0] == want[0] and (got[0] != 'ok' or (got[1] == want[1] and type(got[1]) is type(want[1]))), 'return:conversion',
+            lambda: 'r(%r) -> %s: returned %r, converting the value gives %r' % (v, name, got, want))
+    V.cover('accept' if got[0] == 'ok' else 'reject')
